@@ -69,7 +69,7 @@ PROPS = {
         "n_quick": 150, "n_thorough": 3000, "known_for": ["C01", "C15", "C14", "C03", "C05"],
         "assumptions": ["downstream services are spec-conformant executors over their own schema (simulators, checked against Gql/RefExec.v per request)",
                         "gqlparser's validation of client queries is taken as given (only validated operations are emitted)"] + ["goroutines are identified by a github.com/movio/bramble frame on their stack; net/http connection and body lifetimes are not observed"],
-        "partial": "termination of the transition system is not yet proved (released/limit are); client cancellation is exercised by the harness only",
+        "partial": "client cancellation is exercised by the harness only (the transition system has no cancel label); termination and deadlock freedom are theorems about the transition system, whose tie to execution.go is the acceptance of observed schedules and the goroutine census",
     },
     "C10": {
         "harness": [{"name": "c10"}],
@@ -196,7 +196,7 @@ META = {
         "technique": "Coq invariant over all interleavings of a transition system + schedule enumeration under a gating transport + model correspondence",
     },
     "C13": {
-        "text": "Theorems C13_released (every terminal state of every schedule has main returned, no step goroutine, collector exited — for all plans, outcome oracles, limits), C13_limit (lookup rounds sent <= max in every reachable state) and C13_released_refuted_before_fix (the error path at d802d19 leaked the collector; repaired by fix d3a4cc6). Tie + direct oracles: random queries under limits 0..6 and 50, faults, and client cancellation at a random gate: the request terminates, <= 1 root request per service, lookups <= limit, a limit-exceeded response has no data, and no goroutine with a bramble frame survives; the sequential model reproduces the response including the limit outcome.",
+        "text": "Theorems C13_terminates (every schedule is at most mu(init) steps long for an explicit measure every step decreases, and every reachable state in which main has not returned has an enabled step: every maximal schedule is finite and ends with main returned), C13_released (every terminal state of every schedule has main returned, no step goroutine, collector exited — for all plans, outcome oracles, limits), C13_limit (lookup rounds sent <= max in every reachable state) and C13_released_refuted_before_fix (the error path at d802d19 leaked the collector; repaired by fix d3a4cc6). Tie + direct oracles: random queries under limits 0..6 and 50, faults, and client cancellation at a random gate: the request terminates, <= 1 root request per service, lookups <= limit, a limit-exceeded response has no data, and no goroutine with a bramble frame survives; the sequential model reproduces the response including the limit outcome.",
         "note": "Termination is observed (20 s watchdog), not yet proved; the selection-growth finding (KF-selection-growth) bounds 'bounded work' from below and is recorded.",
         "technique": "Coq invariants over a transition system (all schedules) + goroutine-stack inspection + request counting under a gating transport",
     },
